@@ -3,6 +3,7 @@ package chansim
 import (
 	"encoding/json"
 	"fmt"
+	"strings"
 
 	"github.com/makiuchi-d/gozxing"
 	"github.com/makiuchi-d/gozxing/aztec"
@@ -24,6 +25,9 @@ type Trace11 struct {
 	Scale   int      `json:"scale,omitempty"`
 	Rot     int      `json:"rot,omitempty"`   // quarter turns
 	Quiet   int      `json:"quiet,omitempty"` // quiet zone in modules
+	// Prime, if set, is a symbol decoded FIRST on the same Decoder / AztecReader
+	// instance (instance-reuse history); the oracle applies to both.
+	Prime *Trace11 `json:"prime,omitempty"`
 }
 
 type rngChooser struct{ r *kit.RNG }
@@ -96,7 +100,32 @@ func rotate(m [][]bool, k int) [][]bool {
 	return m
 }
 
+type inst11 struct {
+	dec *azdec.Decoder
+	rd  *aztec.AztecReader
+}
+
 func exec11(tr *Trace11, probe func(string)) (string, *fail) {
+	in := &inst11{azdec.NewDecoder(), aztec.NewAztecReader()}
+	if tr.Prime != nil {
+		p := *tr.Prime
+		p.Prime = nil
+		p.Path, p.Scale, p.Rot, p.Quiet = tr.Path, tr.Scale, tr.Rot, tr.Quiet
+		probe("probe.instance_reused_after_other_symbol")
+		if out, f := exec11on(in, &p, probe); f != nil {
+			f.class = "prime/" + f.class
+			return out, f
+		}
+	}
+	out, f := exec11on(in, tr, probe)
+	if f != nil && tr.Prime != nil {
+		f.class = "reused/" + f.class
+		f.detail += fmt.Sprintf(" [same Decoder/AztecReader instance previously decoded a compact=%v %d-layer symbol]", tr.Prime.Compact, tr.Prime.Layers)
+	}
+	return out, f
+}
+
+func exec11on(in *inst11, tr *Trace11, probe func(string)) (string, *fail) {
 	if tr.Layers < 1 || (tr.Compact && tr.Layers > 4) || tr.Layers > 32 {
 		return "skip:bad size", nil
 	}
@@ -114,6 +143,8 @@ func exec11(tr *Trace11, probe func(string)) (string, *fail) {
 	var err error
 	var pan interface{}
 	func() {
+		enter("hang/"+tr.Path, "hang/"+tr.Path, tr, what)
+		defer leave()
 		defer func() {
 			if r := recover(); r != nil {
 				pan = r
@@ -121,7 +152,7 @@ func exec11(tr *Trace11, probe func(string)) (string, *fail) {
 		}()
 		if tr.Path == "decoder" {
 			dr := azdet.NewAztecDetectorResult(toBitMatrix(m), nil, s.Compact, s.DataWords, s.Layers)
-			res, e := azdec.NewDecoder().Decode(dr)
+			res, e := in.dec.Decode(dr)
 			if e != nil {
 				err = e
 				return
@@ -149,7 +180,7 @@ func exec11(tr *Trace11, probe func(string)) (string, *fail) {
 			err = e
 			return
 		}
-		res, e := aztec.NewAztecReader().Decode(bmp, nil)
+		res, e := in.rd.Decode(bmp, nil)
 		if e != nil {
 			err = e
 			return
@@ -320,7 +351,7 @@ func report11(c *kit.Ctx, tr *Trace11, f *fail, minimise bool) {
 		k = "compact"
 	}
 	key := fmt.Sprintf("%s/%s-%d", f.class, k, tr.Layers)
-	if f.class == "fault/notfound/reader" || f.class == "control/notfound/reader" {
+	if strings.HasSuffix(f.class, "fault/notfound/reader") || strings.HasSuffix(f.class, "control/notfound/reader") {
 		// location failures are keyed by the pose class they occur in (symbol
 		// family and pixels per module), clean or damaged alike
 		key = fmt.Sprintf("notfound/reader/%s@scale%d", k, tr.Scale)
@@ -413,6 +444,7 @@ func C11() *kit.Spec {
 		Run: func(c *kit.Ctx) {
 			j := jobs(c.Tier)[c.Run]
 			r := c.RNG
+			watchCtx = c
 			probe := func(p string) { c.Count(p, 1) }
 			tr, s := fit11(r, j.size.layers, j.size.compact, r.Intn(3))
 			if s == nil {
@@ -477,6 +509,33 @@ func C11() *kit.Spec {
 				}
 				c.Count("control.ok."+path, 1)
 			}
+			// instance-reuse history: the same Decoder / AztecReader first decodes
+			// a symbol of the sibling family with the same layer count (or, for
+			// more than 4 layers, of another size), then this one
+			{
+				sib := size11{j.size.layers, !j.size.compact}
+				if j.size.layers > 4 {
+					all := sizes11()
+					sib = all[r.Intn(len(all))]
+				}
+				if ptr, ps := fit11(r, sib.layers, sib.compact, r.Intn(3)); ps != nil {
+					for _, path := range []string{"decoder", "reader"} {
+						t2 := *tr
+						t2.Prime = ptr
+						t2.Path = path
+						if path == "reader" {
+							t2.Scale, t2.Rot, t2.Quiet = 3, r.Intn(4), r.Range(2, 5)
+						}
+						c.Eval(kit.HashJSON(&t2), true)
+						c.Event(fmt.Sprintf("%x", kit.HashJSON(&t2)))
+						c.Steps(2)
+						if _, f := exec11(&t2, probe); f != nil {
+							report11(c, &t2, f, true)
+							return
+						}
+					}
+				}
+			}
 			if t < 1 {
 				return
 			}
@@ -516,6 +575,7 @@ func C11() *kit.Spec {
 				c.Fatal("bad trace: " + err.Error())
 				return
 			}
+			watchCtx = c
 			if _, f := exec11(tr, func(string) {}); f != nil {
 				report11(c, tr, f, false)
 			}
